@@ -105,8 +105,17 @@ def endOrSpace : List UInt8 → Bool
   | [] => true
   | b :: _ => isReSpace b
 
+/-- `sh`, `dash`, `bash`, `mksh`, `bats`, `zsh` (as bytes, so that the kernel can evaluate) -/
 def shellNames : List (List UInt8) :=
-  ["sh", "dash", "bash", "mksh", "bats", "zsh"].map (fun s => s.toUTF8.toList)
+  [[0x73, 0x68], [0x64, 0x61, 0x73, 0x68], [0x62, 0x61, 0x73, 0x68], [0x6D, 0x6B, 0x73, 0x68],
+   [0x62, 0x61, 0x74, 0x73], [0x7A, 0x73, 0x68]]
+
+/-- `usr/` -/
+def bUsr : List UInt8 := [0x75, 0x73, 0x72, 0x2F]
+/-- `bin/` -/
+def bBin : List UInt8 := [0x62, 0x69, 0x6E, 0x2F]
+/-- `env` -/
+def bEnv : List UInt8 := [0x65, 0x6E, 0x76]
 
 /-- `fileutil.Shebang([]byte("#"+text)) != ""`, i.e. a match of
     `^#![ \t]*/(usr/)?bin/(env[ \t]+)?(sh|dash|bash|mksh|bats|zsh)(\s|$)`; `text` excludes `#`. -/
@@ -116,8 +125,8 @@ def isShebang (text : List UInt8) : Bool :=
     match stripPrefix [0x2F] (dropBlanks r) with
     | none => false
     | some r1 =>
-      let r2 := optPrefix "usr/".toUTF8.toList r1
-      match stripPrefix "bin/".toUTF8.toList r2 with
+      let r2 := optPrefix bUsr r1
+      match stripPrefix bBin r2 with
       | none => false
       | some r3 =>
         let plain := shellNames.any fun n =>
@@ -125,7 +134,7 @@ def isShebang (text : List UInt8) : Bool :=
           | some r4 => endOrSpace r4
           | none => false
         let viaEnv :=
-          match stripPrefix "env".toUTF8.toList r3 with
+          match stripPrefix bEnv r3 with
           | some (b :: r4) =>
             isBlank b && shellNames.any fun n =>
               match stripPrefix n (dropBlanks r4) with
